@@ -147,14 +147,15 @@ def load_config(file_name):
         if err.errno == 2:
             assert err.strerror == "No such file or directory"
             raise UIError("The requested config file (%s) could not be opened. %s.\n"
-                          % (file_name, err.strerror), err)
-        raise UIError(str(err) + "\n", err)
+                          % (escape_braces(file_name), err.strerror), err)
+        raise UIError(escape_braces(str(err)) + "\n", err)
     except yaml.YAMLError as err:
         raise UIError("Parsing of the config file "
-                      + file_name + " failed.\nError " + str(err) + "\n", err)
+                      + escape_braces(file_name) + " failed.\nError "
+                      + escape_braces(str(err)) + "\n", err)
 
     if config_data is None:
-        raise UIError("The config file " + file_name + " is empty.\n", None)
+        raise UIError("The config file " + escape_braces(file_name) + " is empty.\n", None)
 
     try:
         validators = []
@@ -168,7 +169,7 @@ def load_config(file_name):
     except SchemaError as err:
         errors = [escape_braces(val_err) for val_err in validators[0].validation_errors]
         raise UIError(
-            "Validation of " + file_name + " failed.\n{ind}" +
+            "Validation of " + escape_braces(file_name) + " failed.\n{ind}" +
             "\n{ind}".join(errors) + "\n", err)
     return config_data
 
@@ -179,12 +180,14 @@ def validate_gauge_adapters(raw_config):
         adapter = suite["gauge_adapter"]
         if not isinstance(adapter, (dict, str)):
             raise UIError(("Gauge adapter for suite %s must be a string or a dictionary," +
-                           "but is %s.\n") % (suite_name, type(adapter).__name__), None)
+                           "but is %s.\n") % (escape_braces(str(suite_name)),
+                                              type(adapter).__name__), None)
 
         if isinstance(adapter, dict) and len(adapter) != 1:
             raise UIError("When specifying a custom gauge adapter," +
                           " exactly one must to be specified." +
-                          " Currently there are %d. (%s)\n" % (len(adapter), adapter), None)
+                          " Currently there are %d. (%s)\n"
+                          % (len(adapter), escape_braces(str(adapter))), None)
     return True
 
 
